@@ -409,7 +409,7 @@ pub fn streams() -> Vec<Stream> {
     vec![
         Stream { name: "flat", kind: Kind::Enum { count: |t: Tier| paths(t, false).0.len() as u64, complete: |t: Tier| paths(t, false).1, f: e_flat }, isolate: false },
         Stream { name: "nested", kind: Kind::Enum { count: |t: Tier| paths(t, true).0.len() as u64, complete: |t: Tier| paths(t, true).1, f: e_nested }, isolate: false },
-        Stream { name: "random", kind: Kind::Tape { cases: |t: Tier| t.pick(8_000, 200_000), max_len: 200, f: s_random }, isolate: false },
+        Stream { name: "random", kind: Kind::Tape { cases: |t: Tier| t.pick(40_000, 1_000_000), max_len: 200, f: s_random }, isolate: false },
     ]
 }
 
